@@ -192,8 +192,10 @@ impl Family for ScaleCodecFamily {
             cases.push(split_decoder(mib + 70000, &[4096, 100000], "a"));
             cases.push(split_decoder(2 * mib, &[65, 64008, 1 << 19], "b"));
         }
-        // many pieces / slices / anchors
+        // many pieces / slices / anchors (> 1024 borrowed pieces of > 256 bytes, no drain, then every view)
         cases.push(many_pieces(1030, "a", 66, false));
+        cases.push(many_pieces(1100, "b", 300, true));
+        cases.push(many_pieces(1100, "b", 300, false));
         if thorough {
             cases.push(many_pieces(1100, "a", 70, true));
             cases.push(many_pieces(4100, "a", 70, true));
